@@ -21,6 +21,7 @@ _IDS = {}
 _KEEP = []
 _DEPTH = [0]
 _INSTALLED = [False]
+MISSING = []
 
 
 def dig(a):
@@ -100,7 +101,13 @@ def install():
 
     top = lambda: _DEPTH[0] == 1  # noqa: E731  (events of nested Newton runs are not part of the protocol)
 
-    o_fun_items, o_jac_items = N.fun_items, N.jac_items
+    # every hook point is optional: if an internal helper was renamed or removed, the corresponding events are simply absent
+    # (MISSING lists them; the trace specification then reports unexplained events as specification drift)
+    o_fun_items, o_jac_items = getattr(N, "fun_items", None), getattr(N, "jac_items", None)
+    if o_fun_items is None or o_jac_items is None:
+        MISSING.append("fun_items/jac_items")
+        o_fun_items = o_fun_items or (lambda items, x, *a, **k: None)
+        o_jac_items = o_jac_items or (lambda items, x, *a, **k: None)
 
     def fun_items(items, x, *a, **k):
         r = o_fun_items(items, x, *a, **k)
@@ -114,13 +121,17 @@ def install():
             emit("JacItems", x=xdig(x))
         return r
 
-    N.fun_items, N.jac_items = fun_items, jac_items
+    if "fun_items/jac_items" not in MISSING:
+        N.fun_items, N.jac_items = fun_items, jac_items
     if getattr(TL, "fun_items", None) is o_fun_items:
         TL.fun_items = fun_items
     if getattr(TL, "jac_items", None) is o_jac_items:
         TL.jac_items = jac_items
 
-    o_upd = HP.Results.update_statevars
+    o_upd = getattr(HP.Results, "update_statevars", None)
+    if o_upd is None:
+        MISSING.append("Results.update_statevars")
+        o_upd = lambda self: None  # noqa: E731
     owner = {}
 
     def update_statevars(self):
@@ -129,7 +140,8 @@ def install():
         if top():
             emit("Commit", item=owner.get(id(self), "r" + oid(self)), had=bool(had), sv=dig(self.statevars))
 
-    HP.Results.update_statevars = update_statevars
+    if "Results.update_statevars" not in MISSING:
+        HP.Results.update_statevars = update_statevars
 
     def w_check(f):
         @functools.wraps(f)
@@ -245,17 +257,25 @@ def install():
 
     ST.Step.generate = generate
 
-    o_write = JB.Job._write
+    o_write = getattr(JB.Job, "_write", None)
+    if o_write is None:
+        MISSING.append("Job._write")
+        o_write = lambda self, *a, **k: None  # noqa: E731
 
     wsig = inspect.signature(o_write)
 
     def _write(self, *a, **k):
         r = o_write(self, *a, **k)
-        ba = wsig.bind(self, *a, **k).arguments          # whatever the signature is: the frame time and the substep written
-        emit("Frame", time=int(ba["time"]), x=xdig(ba["substep"].x))
+        try:
+            ba = wsig.bind(self, *a, **k).arguments          # whatever the signature is: the frame time and the substep written
+            emit("Frame", time=int(ba["time"]), x=xdig(ba["substep"].x))
+        except Exception:  # noqa: BLE001  (helper signature changed beyond recognition: no Frame event)
+            if "Job._write signature" not in MISSING:
+                MISSING.append("Job._write signature")
         return r
 
-    JB.Job._write = _write
+    if "Job._write" not in MISSING:
+        JB.Job._write = _write
 
     o_eval = JB.Job.evaluate
 
